@@ -43,9 +43,9 @@ func describeTag(tag string) string {
 	}
 }
 
-// invalidMerge returns the first merge key (`<<`) with a value that the YAML decoder
-// refuses to merge, it must be a mapping or a list of mappings.
-func invalidMerge(node *yaml.Node) *yaml.Node {
+// invalidMerge returns the first merge key (`<<`) that the YAML decoder refuses:
+// its value must be a mapping or a list of mappings and it can be set only once.
+func invalidMerge(node *yaml.Node) (*yaml.Node, error) {
 	isMap := func(n *yaml.Node) bool {
 		if n.Kind == yaml.AliasNode {
 			n = n.Alias
@@ -53,11 +53,16 @@ func invalidMerge(node *yaml.Node) *yaml.Node {
 		return n != nil && n.Kind == yaml.MappingNode
 	}
 	if node.Kind == yaml.MappingNode {
+		var first *yaml.Node
 		for i := 0; i+1 < len(node.Content); i += 2 {
 			key, val := node.Content[i], node.Content[i+1]
 			if key.ShortTag() != mergeTag || key.Value != "<<" {
 				continue
 			}
+			if first != nil {
+				return key, fmt.Errorf("mapping key %q already defined at line %d", key.Value, first.Line)
+			}
+			first = key
 			ok := isMap(val)
 			if val.Kind == yaml.SequenceNode {
 				ok = true
@@ -66,25 +71,25 @@ func invalidMerge(node *yaml.Node) *yaml.Node {
 				}
 			}
 			if !ok {
-				return key
+				return key, errors.New("map merge requires map or sequence of maps as the value")
 			}
 		}
 	}
 	for _, child := range node.Content {
-		if key := invalidMerge(child); key != nil {
-			return key
+		if key, err := invalidMerge(child); err != nil {
+			return key, err
 		}
 	}
-	return nil
+	return nil, nil
 }
 
 func parseGroups(doc *yaml.Node, schema Schema, offsetLine, offsetColumn int, contentLines []string) (groups []Group, _ ParseError) {
 	names := map[string]struct{}{}
 
-	if key := invalidMerge(doc); key != nil {
+	if key, err := invalidMerge(doc); err != nil {
 		return nil, ParseError{
 			Line: key.Line,
-			Err:  errors.New("map merge requires map or sequence of maps as the value"),
+			Err:  err,
 		}
 	}
 
